@@ -294,7 +294,7 @@ class C20(InputProp):
     rule = ("for each producer history (status x3 dumps, make_zip, create_zip, download_to_file, render main; each with and without a "
             "complete previous version) the file-system operations are recorded, then the process is killed before EVERY operation "
             "(crash), after half of every write (torn), every operation fails once with ENOSPC and EIO (error), and for the small "
-            "producers every (error at k1, crash at k2>k1) pair; non-trivial/distinct = distinct (producer, state of the published path) outcomes")
+            "producers every (error at k1, crash at k2>k1) pair and every (crash of a first run at k1, crash of a second run in the same directory at k2 / completion) pair; non-trivial/distinct = distinct (producer, state of the published path) outcomes")
     assumptions = ("process kill, not power loss: completed system calls persist, user-space buffers are lost",
                    "the operation sequence of a producer is deterministic (a fault index beyond the end simply lets the producer finish)",
                    "libc-level interposition: open/openat/creat/write/pwrite/writev/sendfile/copy_file_range/close/rename*/link/symlink/unlink*/truncate/mkdir/rmdir/fsync")
@@ -331,6 +331,11 @@ class C20(InputProp):
                     for k1 in range(1, n + 1):
                         for k2 in range(k1 + 1, n + 3):
                             cases.append((name, previous, "error+crash", k1, errno.ENOSPC, k2))
+                    # a run that was killed leaves its debris (temp files) behind; the producer then runs again in the same
+                    # directory and is killed anywhere (or completes): every (kill point of run 1, kill point of run 2) pair
+                    for k1 in range(1, n + 1):
+                        for k2 in range(1, n + 2):
+                            cases.append((name, previous, "crash+rerun", k1, 0, k2))
         self.space = Items(cases, name="fault-schedules")
 
     def run_case(self, case):
@@ -345,6 +350,9 @@ class C20(InputProp):
                 rc = run_child(prod, sbx, k, 0, -1, 0, -1)
             elif mode == "torn":
                 rc = run_child(prod, sbx, k, 1, -1, 0, -1)
+            elif mode == "crash+rerun":
+                run_child(prod, sbx, k, 0, -1, 0, -1)
+                rc = run_child(prod, sbx, k2, 0, -1, 0, -1)
             elif mode == "error":
                 rc = run_child(prod, sbx, -1, 0, k, eno, -1)
             else:
